@@ -414,13 +414,13 @@ func sqlCompare(op string, l, r SQLVal) SQLVal {
 			case "!=":
 				b = tNe(l.S, r.S)
 			case "<":
-				b = mkUF("sqlStrLess", SBool, l.S, r.S)
+				b = mkUF("sqlStrLess", SBool, toBlob(l.S), toBlob(r.S))
 			case ">":
-				b = mkUF("sqlStrLess", SBool, r.S, l.S)
+				b = mkUF("sqlStrLess", SBool, toBlob(r.S), toBlob(l.S))
 			case "<=":
-				b = tOr(tEq(l.S, r.S), mkUF("sqlStrLess", SBool, l.S, r.S))
+				b = tOr(tEq(l.S, r.S), mkUF("sqlStrLess", SBool, toBlob(l.S), toBlob(r.S)))
 			case ">=":
-				b = tOr(tEq(l.S, r.S), mkUF("sqlStrLess", SBool, r.S, l.S))
+				b = tOr(tEq(l.S, r.S), mkUF("sqlStrLess", SBool, toBlob(r.S), toBlob(l.S)))
 			}
 		}
 	default:
